@@ -21,7 +21,25 @@ def corpus_programs(tier):
         if tier == 'thorough' or p.pid.startswith(('peep/1/', 'peep/f', 'peep/a/')) or families.stable_pick(p.pid, 100, 25): P.append((p, None))
     for p in families2.all_core(tier): P.append((p, None))
     for p in families3.g_deep(tier): P.append((p, None))
+    import families4
+    for p in families4.g_wave4(tier): P.append((p, None))
     for p in check_c04.g_modes() + check_c04.g_asm(): P.append((p, None))
+    # two 16-bit comparisons in one condition (each creates its own .ifstartN labels), in every pairing
+    from cast import If, Block, ExprS, Inc, Index, While
+    from families import V, C, A, B, mkprog
+    c16 = [('wa>wb', lambda: B('>', V('wa'), V('wb'))), ('wa<=wb', lambda: B('<=', V('wa'), V('wb'))), ('wa!=2000', lambda: B('!=', V('wa'), C(2000))), ('wc<=500', lambda: B('<=', V('wc'), C(500))), ('ha>hb', lambda: B('>', V('ha'), V('hb'))),
+           ('wc>wa', lambda: B('>', V('wc'), V('wa'))), ('wa==wb', lambda: B('==', V('wa'), V('wb'))), ('wa<wb', lambda: B('<', V('wa'), V('wb'))), ('wa>=wb', lambda: B('>=', V('wa'), V('wb'))), ('va<vb', lambda: B('<', V('va'), V('vb')))]
+    for (n1, c1), (n2, c2), lo in itertools.product(c16, c16, ('&&', '||')):
+        if n1 == n2: continue
+        P.append((mkprog('cond16/%s%s%s/if' % (n1, lo, n2), [If(B(lo, c1(), c2()), A(V('vc'), C(1)), A(V('vc'), C(2)))]), None))
+        if families.stable_pick(n1 + lo + n2, 100, 30):
+            P.append((mkprog('cond16/%s%s%s/while' % (n1, lo, n2), [A(V('vd'), C(2)), While(B('&&', B(lo, c1(), c2()), V('vd')), ExprS(Inc('--', False, V('vd'))))]), None))
+            P.append((mkprog('cond16/%s%s%s/three' % (n1, lo, n2), [If(B(lo, B(lo, c1(), c2()), c1()), A(V('vc'), C(1)))]), None))
+    # a branch over a body of Y-indexed accesses, swept across the short-branch limit
+    for n in range(16, 34):
+        P.append((mkprog('window/aY/%d' % n, [If(B('==', V('va'), V('vb')), Block([A(Index('brr', V('Y')), Index('arr', V('Y'))) for _ in range(n)])), A(V('vc'), C(1))]), None))
+        if n % 3 == 0:
+            P.append((mkprog('window/wY/%d' % n, [If(B('==', V('va'), V('vb')), Block([A(V('wa'), Index('warr', V('Y'))) for _ in range(n * 6 // 10)])), A(V('vc'), C(1))]), None))
     for p in families2.g_call(q) + check_c14.extra_programs():
         names = [f.name for f in p.funcs]
         for r in range(1, len(names) + 1):
@@ -81,6 +99,27 @@ def check_corpus(rep, tier, st, candidates):
                 rep.violation('noasm:%s#%s' % (rid, h), '%s: the emitted code is rejected by a 6502 assembler: %s%s' % (rid, msg, why), dict(kind='tv-noasm', source=text, args=args, msg=msg, code=code), sig=['noasm: ' + re.sub(r'\d+', 'N', msg)])
     if len(st['samples']) < 4:
         st['samples'].append(dict(part='corpus', programs=st['corpus_programs'], instructions=st['corpus_instructions'], verdict='every instruction has a legal addressing mode, every label is defined exactly once, every relative branch is in range'))
+
+
+def check_bank_stubs(rep, st):
+    """bankswitching calls: `JSR Call<f>` refers to a trampoline that the linkers emit for functions in a bank other than 0 only; a call
+    that needs a stub which cannot exist must be rejected"""
+    srcs = {'bank1-calls-bank0': 'char v;\nvoid add() { v++; }\nbank1 void upd() { add(); }\nvoid main() { upd(); }\n',
+            'bank1-calls-bank2': 'char v;\nbank2 void add() { v++; }\nbank1 void upd() { add(); }\nvoid main() { upd(); }\n',
+            'bank0-calls-bank1': 'char v;\nbank1 void add() { v++; }\nvoid main() { add(); }\n',
+            'bank1-calls-bank1': 'char v;\nbank1 void add() { v++; }\nbank1 void upd() { add(); }\nvoid main() { upd(); }\n',
+            'bank1-inline-calls-bank0': 'char v;\nvoid add() { v++; }\ninline void mid() { add(); }\nbank1 void upd() { mid(); }\nvoid main() { upd(); }\n'}
+    R = common.compile_many([(k, ['-O1'], s) for k, s in srcs.items()])
+    for k, c in R.items():
+        st['bank_programs'] += 1
+        if c.status != 'ok': continue
+        for f in c.order:
+            if not c.funcs[f]['has_code']: continue
+            for l in c.funcs[f]['lines']:
+                m = re.match(r'\s+JSR\s+Call(\w+)', l)
+                if m and m.group(1) in c.funcs and c.funcs[m.group(1)]['bank'] == 0:
+                    rep.violation('bankstub:%s' % k, '%s: %s (bank %d) contains `%s` but %s is in bank 0: no trampoline Call%s exists' % (k, f, c.funcs[f]['bank'], l.strip(), m.group(1), m.group(1)),
+                                  dict(kind='tv-noasm', source=srcs[k], args=['-O1'], msg=l.strip()))
 
 
 def check_asm_legality(rep, tier, st):
@@ -162,6 +201,7 @@ def run(tier):
     st3 = collections.defaultdict(int); st3['samples'] = []
     check_c03.check_layouts(rep, mir, tier, st3, only={'labels', 'disp', 'panic'}, keyprefix='c13.check_branches')
     check_corpus(rep, tier, st, cand)
+    check_bank_stubs(rep, st)
     rep.cov = dict(explanation='(a) check_branches from MIR on line layouts with symbolic filler sizes: labels defined exactly once and every branch in range after the repair (z3), validated against the real function; '
                    '(b) GeneratorState::asm from MIR for every configuration: emitted (mnemonic, operand) legal or call rejected - pairs passed through are candidates; (c) append_code applied twice from MIR: labels distinct, '
                    'targets defined; (d) enumerated: every program of the E-TV families x levels x inline subsets x superchip placement assembled by the independent assembler',
